@@ -180,6 +180,12 @@ class Inliner:
         if t.get("res_kind") != "virtual" or not m or not t["args"]:
             return None
         tr = m.group(1)
+        # only traits declared in this crate (a `dyn Write` may be anything; the crate's own impls of std traits are not the candidates)
+        roots = facts.__dict__.setdefault("_local_roots", None)
+        if roots is None:
+            roots = facts._local_roots = {a.split("::")[0] for a in facts.adts if facts.adts[a].get("file", "").startswith("src/")}
+        if tr.split("::")[0] not in roots or tr.split("::")[0] in ("std", "core", "alloc"):
+            return None
         impls = {}
         for k, g in facts.fns.items():
             mm = re.match(r"^<(.+) as %s>::(\w+)$" % re.escape(tr), k)
